@@ -440,7 +440,8 @@ class CallMixin:
                 has = self.dict_has(st, r, key)
                 t, f = self.fork(st, has)
                 if t is not None and f is not None:
-                    raise Unsupported(f'parameter {p} may or may not be in symbolic **kwargs {fi_desc}')
+                    # both feasible: split the call on whether the mapping supplies this parameter
+                    return self.bind_params(t, fnode, args, fi_desc) + self.bind_params(f, fnode, args, fi_desc)
                 if t is not None:
                     st = t
                     loc[p] = SV(self.dict_get(st, r, key))
@@ -463,9 +464,10 @@ class CallMixin:
             if kw:
                 results.append(self.raise_new(st, 'TypeError'))
                 return results
-            if args.kwrest is not None and not consumed:
+            if args.kwrest is not None:
+                # every key of the mapping must name a parameter: the consumed keys are distinct and present
                 r = r_of(args.kwrest.term)
-                t, f = self.fork(st, self.dict_len(st, r) == 0)
+                t, f = self.fork(st, self.dict_len(st, r) == len(consumed))
                 if f is not None:
                     results.append(self.raise_new(f, 'TypeError'))
                 if t is None:
